@@ -637,7 +637,7 @@ const (
 
 // vxC07Dev (development aid, must be false): leave the inputs of the known
 // findings out instead of declaring them.
-const vxC07Dev = true
+const vxC07Dev = false
 
 // checkWalks reads the whole log page by page for every page size and scan
 // cap given and compares with the reference.
